@@ -16,7 +16,7 @@
 (***************************************************************************)
 EXTENDS WireUniverse
 
-CONSTANT MaxSid     \* schemas 1..MaxSid of the universe take part
+MaxSid == Len(Depth0) * NCtx     \* the schemas of the depth-0 shapes take part
 
 VARIABLES sid, vi,      \* the case: schema and first value
           ends, rec, rpos,   \* as in StreamAbs
